@@ -212,7 +212,7 @@ class Externals:
         yield from eng.inline(ctx, node, None, (m, c), m, args, kwargs, qual, self_val=recref)
 
     def _is_container(self, eng, ctx, base, attr):
-        if isinstance(base, (PySeq,)):
+        if isinstance(base, (PySeq, KeysView, SetV)):
             return True
         if isinstance(base, HRef) and ctx.heap[base.id].kind in ('list', 'map'):
             return True
